@@ -42,6 +42,14 @@ class Vec:
         self.cells = cells
 
 
+class Map:
+    """string -> Cell, iterated in key order (std::map)"""
+    __slots__ = ("cells",)
+
+    def __init__(self, cells):
+        self.cells = cells      # dict
+
+
 class Obj:
     __slots__ = ("cls", "attrs")
 
@@ -82,6 +90,10 @@ def to_string(v):
         return v
     if isinstance(v, Vec):
         return "[" + ", ".join(to_string(c.v) for c in v.cells) + "]"
+    if isinstance(v, Map):
+        return "[" + ", ".join("<%s, %s>" % (k, to_string(v.cells[k].v)) for k in sorted(v.cells)) + "]"
+    if isinstance(v, Obj) and v.cls == "Pair":
+        return "<%s, %s>" % (to_string(v.attrs["first"].v), to_string(v.attrs["second"].v))
     raise ChaiError("eval_error", "to_string")
 
 
@@ -133,6 +145,10 @@ class Interp:
             if "shallow_container_copy" in self.dev:
                 return Vec(list(v.cells))
             return Vec([Cell(self.clone(c.v)) for c in v.cells])
+        if isinstance(v, Map):
+            if "shallow_container_copy" in self.dev:
+                return Map(dict(v.cells))
+            return Map({k: Cell(self.clone(c.v)) for k, c in v.cells.items()})
         if isinstance(v, Obj):
             return Obj(v.cls, {k: Cell(self.clone(c.v)) for k, c in v.attrs.items()})
         return v
@@ -178,11 +194,15 @@ class Interp:
             return self.index_cell(x).v
         if k == "vec":
             return Vec([Cell(self.clone(self.ev(e))) for e in x[1]])
+        if k == "map":
+            return Map({kk: Cell(self.clone(self.ev(e))) for kk, e in x[1]})
+        if k == "int_of":
+            return int(self.ev(x[1]))
         if k == "tostr":
             return to_string(self.ev(x[1]))
         if k == "size":
             v = self.ev(x[1])
-            return len(v.cells) if isinstance(v, Vec) else len(v)
+            return len(v.cells) if isinstance(v, (Vec, Map)) else len(v)
         if k == "interp":
             return "".join(p[1] if p[0] == "str" else to_string(self.ev(p)) for p in x[1])
         if k == "lambda":
@@ -228,19 +248,26 @@ class Interp:
             return a >> b
         raise ValueError(op)
 
-    def index_cell(self, x):
+    def index_cell(self, x, create=False):
         v = self.ev(x[1])
         i = self.ev(x[2])
+        if isinstance(v, Map):
+            if i not in v.cells:
+                if not create:
+                    # reading a missing key default-inserts an undefined value in the engine: not modelled, never generated unguarded
+                    raise RuntimeError("read of a missing map key is not modelled")
+                v.cells[i] = Cell(None)
+            return v.cells[i]
         if not (0 <= i < len(v.cells)):
             raise ChaiError("std", "out_of_range")
         return v.cells[i]
 
-    def lvalue(self, x):
+    def lvalue(self, x, create=False):
         k = x[0]
         if k == "var":
             return self.lookup(x[1])
         if k == "index":
-            return self.index_cell(x)
+            return self.index_cell(x, create)
         if k == "attr":
             return self.ev(x[1]).attrs[x[2]]
         raise ValueError("lvalue " + k)
@@ -308,6 +335,17 @@ class Interp:
         if isinstance(o, Vec) and mname == "push_back":
             o.cells.append(Cell(self.clone(self.ev(args[0]))))
             return VOID
+        if isinstance(o, Map):
+            if mname == "count":
+                return 1 if self.ev(args[0]) in o.cells else 0
+            if mname == "erase":
+                return 1 if o.cells.pop(self.ev(args[0]), None) is not None else 0
+            if mname == "clear":
+                o.cells.clear()
+                return VOID
+            if mname == "empty":
+                return not o.cells
+            raise ChaiError("eval_error", "no method " + mname)
         if isinstance(o, Obj):
             m = self.classes[o.cls]["methods"][mname]
             cells = [self.arg_cell(a) for a in args]
@@ -349,7 +387,7 @@ class Interp:
         if k == "assign":
             _, lv, op, e = st
             v = self.ev(e)          # right-hand side first
-            cell = self.lvalue(lv)
+            cell = self.lvalue(lv, create=(op == "="))
             if op == "=":
                 cell.v = self.clone(v) if not isinstance(v, (Vec, Obj)) else self.clone(v)
             else:
@@ -414,8 +452,13 @@ class Interp:
         if k == "rfor":
             _, x, src, body = st
             v = self.ev(src)
+            if isinstance(v, Map):
+                # elements are pairs <const key, value>; the value is the map's own element
+                cells = [Cell(Obj("Pair", {"first": Cell(kk), "second": v.cells[kk]})) for kk in sorted(v.cells)]
+            else:
+                cells = list(v.cells)
             try:
-                for c in list(v.cells):
+                for c in cells:
                     self.tick()
                     self.scopes.append({x: c})
                     try:
